@@ -174,6 +174,7 @@ def run(ctx):
         'codes outside every table may be Failure, or the class PS3.7 assigns by pattern '
         '(Warning for 0001/0107/0116/Bxxx, Cancel FE00, Pending FF00/FF01)',
         'a code without a service-specific entry for the command must get the same class as without a command',
+        'a copy / deep copy / pickle round trip of a Status classifies like the original',
         'the command may be given as the response class, an instance of it or a subclass: same classification',
         'classification is a function of (code, command) only: also checked in code-major order and right after a lookup of the same code for another command']
     cmds = [None] + message_classes()
@@ -204,6 +205,7 @@ def run(ctx):
         ctx.samples.append({'command': cmd.__name__, 'code': code, 'status_type': st.status_type})
     history(ctx, statuses, cmds)
     alt_forms(ctx, statuses, cmds)
+    copies(ctx, statuses, cmds)
     metamorphic(ctx)
 
 
@@ -268,12 +270,51 @@ def alt_forms(ctx, statuses, cmds):
     ctx.label('alt-form-of-command', n)
 
 
+def copies(ctx, statuses, cmds):
+    """A Status is a value: a copy of it (copy, deepcopy, pickle round trip - what happens when results are put in
+    records, queues or sent to another process) says what the original says."""
+    import copy
+    import pickle
+    n = 0
+    ways = (('copy', copy.copy), ('deepcopy', copy.deepcopy), ('pickle', lambda x: pickle.loads(pickle.dumps(x))),
+            ('pickle-protocol-2', lambda x: pickle.loads(pickle.dumps(x, 2))))
+    for cmd in cmds:
+        cf = cmd.command_field if cmd is not None else None
+        codes = sorted({c for c in range(0x10000) if specific_class(cf, c) is not None and (c & 0xFF) in (0, 1, 6, 7, 0xFF)} |
+                       GENERAL_CODES | {0x1234})
+        for code in codes:
+            st = statuses.Status(code, cmd)
+            want = (st.status_type, int(st), st.is_pending, st.is_failure, st.is_warning, st.is_cancel, st.is_success)
+            for wname, fn in ways:
+                n += 1
+                case = {'kind': 'copy', 'command': getattr(cmd, '__name__', None), 'code': code, 'way': wname}
+                try:
+                    c2 = fn(st)
+                    got = (c2.status_type, int(c2), c2.is_pending, c2.is_failure, c2.is_warning, c2.is_cancel, c2.is_success)
+                except Exception as exc:
+                    ctx.fail('C18:copy:exception:%s' % wname, '%s of Status(0x%04X, %s) raised %r'
+                             % (wname, code, getattr(cmd, '__name__', None), exc), case)
+                    continue
+                if got != want:
+                    ctx.fail('C18:copy:%s' % wname, '%s of Status(0x%04X, %s) is %s / %04X, the original %s / %04X'
+                             % (wname, code, getattr(cmd, '__name__', None), got[0], got[1], want[0], want[1]), case)
+    ctx.evaluations += n
+    ctx.label('copies', n)
+
+
 def replay(case):
     from pynetdicom2 import statuses, dimsemessages
     if case.get('kind') == 'metamorphic':
         from ..common import Ctx
         c = Ctx('C18', 'quick', 1)
         metamorphic(c)
+        for key, ent in c.failures.items():
+            raise Violation(key, ent['what'], ent['case'])
+        return
+    if case.get('kind') == 'copy':
+        from ..common import Ctx
+        c = Ctx('C18', 'quick', 1)
+        copies(c, statuses, [getattr(dimsemessages, case['command']) if case['command'] else None])
         for key, ent in c.failures.items():
             raise Violation(key, ent['what'], ent['case'])
         return
